@@ -141,9 +141,18 @@ func (c *Ctx) gcsValidate(label string, stores []string, progs [][]gcs.Op, class
 		}
 		return rejects[a].Engine < rejects[b].Engine
 	})
-	for n, r := range rejects {
-		if n >= 40 {
-			fmt.Printf("  (%d further rejected traces not individually confirmed)\n", len(rejects)-40)
+	// one confirmation run per rejected (program, store); every rejection of the re-executed run is reported
+	// (a known finding early in a program must not hide a different violation later in it)
+	done := map[string]bool{}
+	n := 0
+	for _, r := range rejects {
+		key := fmt.Sprint(r.Tr, "/", r.Engine)
+		if done[key] {
+			continue
+		}
+		done[key] = true
+		if n++; n > 40 {
+			fmt.Printf("  (further rejected traces not individually confirmed)\n")
 			break
 		}
 		prog := progs[r.Tr-1]
@@ -157,17 +166,19 @@ func (c *Ctx) gcsValidate(label string, stores []string, progs [][]gcs.Op, class
 			c.Inconclusive("%s/%s: rejection of trace %d step %d (%s) did not reproduce", label, r.Engine, r.Tr, r.I, r.Ev)
 			continue
 		}
-		step := rj[0].I
-		var ev *gcs.Op
-		if step < len(evs) {
-			ev = &evs[step]
+		for _, x := range rj {
+			step := x.I
+			var ev *gcs.Op
+			if step < len(evs) {
+				ev = &evs[step]
+			}
+			id := ""
+			if classify != nil {
+				id = classify(r.Engine, prog, x, ev)
+			}
+			what := fmt.Sprintf("%s: store %s: step %d (%s) of the recorded program is not a behaviour of the specification (%s does not match)", label, r.Engine, step, x.Ev, x.Why)
+			c.Violation(id, what, gcsCase{Kind: "gcs-seq", Store: r.Engine, Program: stripGcs(prog), Step: step, Why: x.Why, Event: ev})
 		}
-		id := ""
-		if classify != nil {
-			id = classify(r.Engine, prog, rj[0], ev)
-		}
-		what := fmt.Sprintf("%s: store %s: step %d (%s) of the recorded program is not a behaviour of the specification (%s does not match)", label, r.Engine, step, rj[0].Ev, rj[0].Why)
-		c.Violation(id, what, gcsCase{Kind: "gcs-seq", Store: r.Engine, Program: stripGcs(prog), Step: step, Why: rj[0].Why, Event: ev})
 	}
 }
 
